@@ -99,6 +99,7 @@ def smapF (mode : String) (c : Int) (x : Int) : Int :=
   match mode with
   | "0" => x + c
   | "1" => 0 - x
+  | "3" => x
   | _ => c
 
 def showOptKV : Option (Int × Int) → String
@@ -224,7 +225,7 @@ def step (st : St) (line : String) : St × String :=
   | ["sany", s, p, c] => (st, showB (StdSet.«exists» (pred p (int c)) (getS st s)))
   | ["smap", d, s, mode, c] =>
     let x := getS st s
-    match StdSet.map cmp (fun _ _ => false) (smapF mode (int c)) (fuelOf (StdSet.nodes x) (StdSet.nodes x)) x with
+    match StdSet.map cmp (fun a b => mode == "3" && a == b) (smapF mode (int c)) (fuelOf (StdSet.nodes x) (StdSet.nodes x)) x with
     | none => (st, "oof")
     | some r => storeS st d r
   -- lists
@@ -262,7 +263,8 @@ def step (st : St) (line : String) : St × String :=
     let o : StdAux.SOption Int := StdAux.SOption.filter (pred p (int c)) (.some (int a))
     let so (x : StdAux.SOption Int) : String := showOptI x.toOption
     let pre := StdAux.SOption.iter (fun x (acc : String) => acc ++ s!"{x};") o ""
-    let both := match (StdAux.SOption.both o (StdAux.SOption.map (· + 1) o)).toOption with
+    let o2 : StdAux.SOption Int := StdAux.SOption.filter (fun x => Int.tmod x 2 != 0) (.some (int c))
+    let both := match (StdAux.SOption.both o o2).toOption with
       | none => "none"
       | some pr => s!"some {pr.e0},{pr.e1}"
     (st, pre ++ so (StdAux.SOption.map (· + 1) o) ++ "|" ++ so (StdAux.SOption.filter (fun x => Int.tmod x 2 != 0) o)
@@ -284,6 +286,30 @@ def step (st : St) (line : String) : St × String :=
       ++ "|" ++ sr showI (StdAux.SResult.mapError (· + 1) r)
       ++ "|" ++ sr (fun _ => "unit") (StdAux.SResult.ignore r)
       ++ "|" ++ showOptI (StdAux.SResult.tryUnwrap r).toOption)
+  | ["lemp", s] => (st, showB (StdList.isEmpty (getL st s)))
+  | ["scmp2", a, b] => (st, showI (StdSet.compare cmp (fun _ _ => 7) (getS st a) (getS st b)))
+  | ["bool", x, y] =>
+    let bx := x == "1"; let by' := y == "1"
+    match StdSet.insert cmp (.empty : S) (StdAux.boolIntValue bx) with
+    | none => die st
+    | some s1 =>
+      match StdSet.insert cmp s1 (StdAux.boolIntValue by') with
+      | none => die st
+      | some s2 =>
+        (st, StdSet.fold (fun (acc : String) v => acc ++ (if v == 1 then "true" else "false") ++ ";") s2 ""
+          ++ "|" ++ showI (StdAux.boolCompare bx by') ++ "|" ++ showI (StdAux.boolIntValue bx))
+  | ["ounw", a, p, c] =>
+    match StdAux.SOption.unwrap (StdAux.SOption.filter (pred p (int c)) (.some (int a))) with
+    | none => die st
+    | some v => (st, showI v)
+  | ["rexp", a, p, c] =>
+    match StdAux.SResult.expect (StdAux.SResult.fromOption (E := Int) (StdAux.SOption.filter (pred p (int c)) (.some (int a))) (int c)) with
+    | none => die st
+    | some v => (st, showI v)
+  | ["runw", a, p, c] =>
+    match StdAux.SResult.unwrap (StdAux.SResult.fromOption (E := Int) (StdAux.SOption.filter (pred p (int c)) (.some (int a))) (int c)) with
+    | none => die st
+    | some v => (st, showI v)
   | _ => (st, "bad-op")
 
 def run : IO Unit := runLoop ({} : St) step
